@@ -515,3 +515,15 @@ func namedTypeName(t types.Type) string {
 	}
 	return ""
 }
+
+// constNameOf: the name of the package-level constant of pkg with type t and value v, or a rendering of v.
+func constNameOf(pkg *types.Package, t types.Type, v constant.Value) string {
+	if pkg != nil {
+		for _, nm := range pkg.Scope().Names() {
+			if k, ok := pkg.Scope().Lookup(nm).(*types.Const); ok && types.Identical(k.Type(), t) && constant.Compare(k.Val(), token.EQL, v) {
+				return k.Name()
+			}
+		}
+	}
+	return v.String()
+}
